@@ -584,8 +584,6 @@ def domain(e, opts, console):
         for co, _h, _f, _cs in cols:
             if co.get("width") is not None or co.get("min_width") is not None or co.get("no_wrap", False):
                 return "out"
-        if ratio_zero_table(e):
-            return "rz"
         return "in"  # (Dom also asks an explicit Table(width) for one cell per column; no counterexample known: evaluated everywhere)
     if k == "COLS":
         d = e[1].get("title")
